@@ -15,7 +15,9 @@
 #include <lib/random/random.h>
 
 static FILE *f_ops, *f_c;
-static int mode_par;
+static int mode_par, mode_dist;
+static const char *ops_path, *c_path;
+static unsigned usleep_max;
 static unsigned long n_ev[40], n_lines;
 static uint64_t vclock, vperiod = 1000;
 static unsigned long n_rollbacks, n_silent, n_antis, n_fwd, n_gvt, n_stragglers, max_rb_depth, n_ckpt, n_fossil;
@@ -71,13 +73,126 @@ static uint64_t lp_digest(uint64_t lp)
 }
 static uint64_t tq_of(double t) { return t >= 1e18 ? (1ULL << 62) : (uint64_t)(t * 4.0); } /* SIMTIME_MAX -> 2^62 */
 
-#define OP(...) (fprintf(f_ops, __VA_ARGS__), fputc('\n', f_ops), n_lines++)
+static void dist_open(void)
+{
+	char b[600];
+	snprintf(b, sizeof b, "%s.%d", ops_path, (int)nid);
+	f_ops = xfopen(b, "w");
+	snprintf(b, sizeof b, "%s.%d", c_path, (int)nid);
+	f_c = xfopen(b, "w");
+	vrng_state ^= 0x9e3779b97f4a7c15ULL * (uint64_t)(nid + 1); /* a different schedule on every rank */
+}
+#define OP(...) ((void)(f_ops || (dist_open(), 1)), fprintf(f_ops, __VA_ARGS__), fputc('\n', f_ops), n_lines++)
 #define RE(...) (fprintf(f_c, __VA_ARGS__), fputc('\n', f_c))
+
+
+/* ------------------------------------------------------------------ distributed mode
+ * Several MPI ranks, each with its own scheduler; cross-rank timing is real. The trace is reduced to
+ * what the sequential specification can judge: the committed stream of every LP (entries released by
+ * fossil collection, in order; entries held at shutdown below the last GVT) and the final states. */
+static struct { uint64_t lp, tq; unsigned type, size; uint64_t pl; } cbuf[1 << 16];
+static unsigned cbuf_n;
+static void emit_commit(uint64_t lp, const struct lp_msg *m)
+{
+	OP("commit %llu", (unsigned long long)lp);
+	RE("commit lp=%llu tq=%llu type=%u size=%u pl=%llx", (unsigned long long)lp, (unsigned long long)tq_of(m->dest_t),
+	    m->m_type, m->pl_size, (unsigned long long)gm_payload_digest(m->pl, m->pl_size));
+}
+static void dist_trace(unsigned kind, uint64_t a, uint64_t b, uint64_t c)
+{
+	unsigned r = rid;
+	const struct lp_msg *m = (const struct lp_msg *)(uintptr_t)a;
+	switch(kind) {
+		case VK_MSG_ALLOC:
+			n_alloc++;
+			break;
+		case VK_MSG_FREE:
+			n_free++;
+			break;
+		case VK_DEQUEUE:
+			if(r < VS_MAXT && tq_of(m->dest_t) < th_gvt[r])
+				s_below_gvt++;
+			break;
+		case VK_FOSSIL_FREE:
+			if(!(b & 3) && cbuf_n < (1 << 16)) { /* a committed processed message; the C loop walks backwards */
+				const struct lp_msg *p = (const struct lp_msg *)(uintptr_t)b;
+				cbuf[cbuf_n].lp = a;
+				cbuf[cbuf_n].tq = tq_of(p->dest_t);
+				cbuf[cbuf_n].type = p->m_type;
+				cbuf[cbuf_n].size = p->pl_size;
+				cbuf[cbuf_n].pl = gm_payload_digest(p->pl, p->pl_size);
+				cbuf_n++;
+			}
+			break;
+		case VK_FOSSIL_DONE:
+			n_fossil++;
+			while(cbuf_n) {
+				cbuf_n--;
+				OP("commit %llu", (unsigned long long)cbuf[cbuf_n].lp);
+				RE("commit lp=%llu tq=%llu type=%u size=%u pl=%llx", (unsigned long long)cbuf[cbuf_n].lp,
+				    (unsigned long long)cbuf[cbuf_n].tq, cbuf[cbuf_n].type, cbuf[cbuf_n].size,
+				    (unsigned long long)cbuf[cbuf_n].pl);
+			}
+			if(a - lid_node_first < MAXLP)
+				hbase[a - lid_node_first] += b;
+			break;
+		case VK_FINI_ENTRY:
+			if(!(b & 3)) {
+				const struct lp_msg *p = (const struct lp_msg *)(uintptr_t)b;
+				if(r < VS_MAXT && tq_of(p->dest_t) < th_gvt[r])
+					emit_commit(a, p);
+			}
+			break;
+		case VK_ROLLBACK:
+			n_rollbacks++;
+			break;
+		case VK_ROLLBACK_DONE: {
+			uint64_t l = a - lid_node_first;
+			if(l < MAXLP && dg[l] && hbase[l] + b < MAXH) {
+				s_rb_checked++;
+				s_rb_after_fossil += hbase[l] != 0;
+				if(dg[l][hbase[l] + b] != lp_digest(a))
+					s_rb_mismatch++;
+			}
+			break;
+		}
+		case VK_FORWARD:
+			n_fwd++;
+			if(b - lid_node_first < MAXLP)
+				dg_set(b - lid_node_first, hbase[b - lid_node_first] + c + 1, lp_digest(b));
+			break;
+		case VK_CKPT:
+			n_ckpt++;
+			if(a - lid_node_first < MAXLP)
+				dg_set(a - lid_node_first, hbase[a - lid_node_first] + b, lp_digest(a));
+			break;
+		case VK_SILENT: n_silent++; break;
+		case VK_ANTI_LOCAL: n_antis++; break;
+		case VK_ANTI_REMOTE: n_ev[39]++; n_antis++; break;
+		case VK_GVT:
+			n_gvt++;
+			if(r < VS_MAXT) {
+				uint64_t g = tq_of(bits_dbl(a));
+				if(g < th_gvt[r])
+					s_gvt_decrease++;
+				th_gvt[r] = g;
+			}
+			OP("gvt %u %llu", r, (unsigned long long)tq_of(bits_dbl(a)));
+			RE("gvt %u tq=%llu", r, (unsigned long long)tq_of(bits_dbl(a)));
+			break;
+		case VK_DRAIN_STAGE:
+			if(r < VS_MAXT)
+				drain_stage[r] = (unsigned)a;
+			break;
+		default:
+			break;
+	}
+}
 
 /* ------------------------------------------------------------------ hooks */
 uint_fast64_t verif_now(void)
 {
-	if(!mode_par) {
+	if(!mode_par && !mode_dist) {
 		vclock += vrng_below(3) ? 0 : 1 + vperiod; /* serial: the timer fires at seeded random events */
 		OP("snow %llu", (unsigned long long)vclock);
 		RE("now");
@@ -92,10 +207,14 @@ void verif_trace(unsigned kind, uint64_t a, uint64_t b, uint64_t c)
 {
 	if(kind < 40)
 		n_ev[kind]++;
-	if(!mode_par)
+	if(!mode_par && !mode_dist)
 		return;
 	unsigned r = rid;
 	const struct lp_msg *m = (const struct lp_msg *)(uintptr_t)a;
+	if(mode_dist) {
+		dist_trace(kind, a, b, c);
+		return;
+	}
 	switch(kind) {
 		case VK_MSG_ALLOC: {
 			uint64_t o = ord_new(m);
@@ -257,7 +376,7 @@ void verif_trace(unsigned kind, uint64_t a, uint64_t b, uint64_t c)
 static void on_init(lp_id_t me)
 {
 	const uint64_t *s = lps[me].rng_ctx->state;
-	if(mode_par) {
+	if(mode_par || mode_dist) {
 		OP("init %u %llu %llx %llx %llx %llx", rid, (unsigned long long)me, (unsigned long long)s[0],
 		    (unsigned long long)s[1], (unsigned long long)s[2], (unsigned long long)s[3]);
 		RE("init lp=%llu", (unsigned long long)me);
@@ -274,7 +393,7 @@ static void on_dispatch(lp_id_t me, uint64_t tq, unsigned type, const void *pl, 
 {
 	n_dispatch++;
 	n_frozen_dispatch += frozen;
-	if(!mode_par) {
+	if(!mode_par && !mode_dist) {
 		OP("sdisp");
 		RE("d lp=%llu tq=%llu type=%u size=%u pl=%llx fr=%d", (unsigned long long)me, (unsigned long long)tq, type, size,
 		    (unsigned long long)gm_payload_digest(pl, size), frozen);
@@ -284,11 +403,16 @@ static void on_dispatch(lp_id_t me, uint64_t tq, unsigned type, const void *pl, 
 static void on_fini(lp_id_t me, const struct gm_state *st)
 {
 	uint64_t d = gm_digest(st, lps[me].rng_ctx->state);
-	if(mode_par) {
+	if(mode_par || mode_dist) {
 		OP("finilp %u %llu", rid, (unsigned long long)me);
 		/* the final state is claimed to equal the sequential one only for predicate-terminated runs;
 		 * a run stopped by a termination time ends in a speculative state */
-		if(g_tterm_q)
+		if(mode_dist && g_tterm_q)
+			RE("finilp lp=%llu seq=-", (unsigned long long)me);
+		else if(mode_dist)
+			RE("finilp lp=%llu seq=%llx cnt=%llu", (unsigned long long)me, (unsigned long long)d,
+			    (unsigned long long)st->cnt);
+		else if(g_tterm_q)
 			RE("finilp lp=%llu st=%llx cnt=%llu seq=-", (unsigned long long)me, (unsigned long long)d,
 			    (unsigned long long)st->cnt);
 		else
@@ -302,6 +426,8 @@ static void on_fini(lp_id_t me, const struct gm_state *st)
 
 static void print_stats(const char *outcome)
 {
+	if(mode_dist)
+		printf("RANK%d ", (int)nid);
 	printf("{\"outcome\":\"%s\",\"lines\":%lu,\"dispatch\":%lu,\"frozen_dispatch\":%lu,\"fwd\":%lu,\"rollbacks\":%lu,"
 	       "\"silent\":%lu,\"antis\":%lu,\"gvt\":%lu,\"ckpt\":%lu,\"fossil\":%lu,\"msgs\":%llu,\"steps\":%llu,"
 	       "\"switches\":%llu,\"s_below_gvt\":%lu,\"s_rb_mismatch\":%lu,\"s_double_free\":%lu,\"s_rb_checked\":%lu,"
@@ -347,8 +473,13 @@ int main(int argc, char **argv)
 	if(argc < 4)
 		return 2;
 	mode_par = !strcmp(argv[1], "par");
-	f_ops = xfopen(argv[2], "w");
-	f_c = xfopen(argv[3], "w");
+	mode_dist = !strcmp(argv[1], "dist");
+	ops_path = argv[2];
+	c_path = argv[3];
+	if(!mode_dist) {
+		f_ops = xfopen(argv[2], "w");
+		f_c = xfopen(argv[3], "w");
+	}
 	vrng_state = argu(argc, argv, "seed", 1);
 	GM.seed = argu(argc, argv, "mseed", 1);
 	GM.n_lps = argu(argc, argv, "lps", 4);
@@ -372,14 +503,17 @@ int main(int argc, char **argv)
 	gm_on_init = on_init;
 	gm_on_fini = on_fini;
 
-	OP("model %llu %u %u %u %u %u %u %u %u %u %u %llu", (unsigned long long)GM.seed, GM.n_lps, GM.n_types, GM.max_fan,
-	    GM.thr_base, GM.thr_spread, GM.use_rng, GM.mem_ops, GM.t0_events, threads, ckpt, (unsigned long long)tterm_q);
-	RE("model ok");
-	OP("period %llu", (unsigned long long)vperiod);
-	RE("period");
+	if(!mode_dist) {
+		OP("model %llu %u %u %u %u %u %u %u %u %u %u %llu", (unsigned long long)GM.seed, GM.n_lps, GM.n_types,
+		    GM.max_fan, GM.thr_base, GM.thr_spread, GM.use_rng, GM.mem_ops, GM.t0_events, threads, ckpt,
+		    (unsigned long long)tterm_q);
+		RE("model ok");
+		OP("period %llu", (unsigned long long)vperiod);
+		RE("period");
+	}
 
 	struct simulation_configuration conf = {.lps = GM.n_lps,
-	    .n_threads = mode_par ? threads : 1,
+	    .n_threads = (mode_par || mode_dist) ? threads : 1,
 	    .termination_time = tterm_q ? (double)tterm_q / 4.0 : 0,
 	    .gvt_period = (unsigned)vperiod,
 	    .log_level = LOG_SILENT,
@@ -387,16 +521,18 @@ int main(int argc, char **argv)
 	    .ckpt_interval = ckpt,
 	    .prng_seed = argu(argc, argv, "pseed", 12345),
 	    .core_binding = false,
-	    .serial = !mode_par,
+	    .serial = !(mode_par || mode_dist),
 	    .dispatcher = gm_process,
 	    .committed = gm_can_end};
 	if(RootsimInit(&conf))
 		return 2;
-	if(mode_par) {
+	if(mode_par || mode_dist) {
 		vs_on_hang = on_hang;
 		vs_init((int)threads);
 	}
 	int rc = RootsimRun();
+	if(mode_dist && !f_ops)
+		dist_open();
 	OP("end");
 	if(mode_par) {
 		unsigned long leaked = 0;
